@@ -161,6 +161,11 @@ def _c12_case(args):
         if not H.has_shared_job(s1):          # live edits of shared-job systems are known finding D1 territory
             c = H.build(s1)
             try:
+                if kf == 3 and sec in ("servers", "networks", "countries", "devices"):
+                    # a what-if simulation has been created and switched off before the driver is edited (values were swapped out and back)
+                    from . import sim as SIM
+                    mk_, _ = SIM.change_lists(c, s1)["job.data_transferred"]
+                    simu = H.ModelingUpdate(mk_(c), SIM.dates_for(c)["first"]); simu.set_updated_values(); simu.reset_values()
                 setattr(c[n], attr, H.Q(s2[sec][n][key]))
                 live_snap = H.snapshot(c.system)
             except Exception as ex:
